@@ -208,7 +208,10 @@ def check_headers(case, o, fa):
                     bad.append({'kind': 'not-witness-exception', 'entry': ent, 'pep': pep})
                     continue
             if not ok:
-                bad.append({'kind': 'not-witness', 'entry': ent, 'pep': pep, 'why': why,
+                # is the sequence at least present in a protein of the haplotype carrying exactly the named records (then only its
+                # ends are not cleavage sites there: a cleavage-creating record is missing from the label)?
+                ok_any, _ = orc.witness(bb, set(named) | set(altids), lim.mixed_copy('anycut'), flags, pep)
+                bad.append({'kind': 'not-witness', 'entry': ent, 'pep': pep, 'why': why, 'boundary_only': bool(ok_any),
                             'repair': minimal_repair(bb, set(named), lim, flags, pep),
                             'circular': bb.circular, 'circle_nt': len(bb.seq) if bb.circular else None,
                             'fusion_donor_fs': bb.kind == 'fusion' and any(
